@@ -2048,6 +2048,12 @@ func (r Stack) Reveal() Stack {
 reveal is a private method called by [Stack.Reveal].
 */
 func (r *stack) reveal() (err error) {
+	// a read-only instance stays as it is, also when
+	// it is reached through an enclosing instance.
+	if r.positive(ronly) {
+		return
+	}
+
 	r.lock()
 	defer r.unlock()
 
